@@ -471,6 +471,27 @@ ROWS = [
 from sa.hdlcref import _memo_on_model  # noqa: E402
 
 
+def _pure_line_predicate(m, g):
+    """the condition reads nothing but the line popped in this step (and constants / module-level constants)"""
+    seen = [False]
+
+    def ok(sv):
+        if not isinstance(sv, tuple) or not sv:
+            return True
+        if m.is_line(sv):
+            seen[0] = True
+            return True
+        t = sv[0]
+        if t == "c":
+            return True
+        if t == "g":
+            return True  # a module-level name (a compiled pattern, a constant)
+        if t in ("l", "p", "havoc", "new", "iter", "f0", "prop"):
+            return False
+        return all(ok(x) for x in sv[1:] if isinstance(x, tuple))
+    return ok(g) and seen[0]
+
+
 @_memo_on_model
 def conformance(m: P1Model):
     res = []
@@ -485,7 +506,10 @@ def conformance(m: P1Model):
             if why:
                 nb += 1
                 unk = f" (under unrecognised condition(s) {[t for t, _, _ in pp.unknown]}, treated as free)" if pp.unknown else ""
-                res.append(Result("bad", "row:" + rid, rid, f"{desc}: {why}{unk}", ploc(m, pp), witness=f"[{pp.guard_text()}] => {pp.post.brief()}"))
+                # an unrecognised condition that only looks at the popped line may be another spelling of the line literals that define the row (first octet, ASCII,
+                # identification match): whether this path belongs to the row is then not known
+                line_pred = bool(pp.unknown) and all(_pure_line_predicate(m, g_) for _, _, g_ in pp.unknown)
+                res.append(Result("und" if line_pred else "bad", "row:" + rid, rid, f"{desc}: {why}{unk}", ploc(m, pp), witness=f"[{pp.guard_text()}] => {pp.post.brief()}"))
         if not nb:
             res.append(Result("ok", "row:" + rid, rid, f"{len(ps)} path(s) conform: {desc}"))
     return res
